@@ -123,6 +123,28 @@ def handler(port, ev, who):
     return f'[=]({params}) mutable {{ ' + ' '.join(body) + ' }'
 
 
+def model_header_lean(plan):
+    """what a Dezyne-generated header gives a translation unit and no more: <dzn/meta.hh>, forward declarations of the
+    runtime facilities, the interface structs and the component struct with its members DECLARED (no inline bodies, so
+    nothing else is pulled in).  A shell source that compiles against this brings its own includes for everything it uses."""
+    itfs = {}
+    for p in plan['ports']:
+        itfs[tuple(p['itf']['fqn'])] = p['itf']
+    out = ['#pragma once', '#include <dzn/meta.hh>', '#include <functional>', '#include <string>', '#include "verif_types.hh"',
+           'namespace dzn { struct locator; struct runtime; struct pump; }', '']
+    for fqn, itf in sorted(itfs.items()):
+        text = interface_struct(itf)
+        head, _, _ = text.partition('    void check_bindings() const')
+        out.append(wrap_ns(list(fqn[:-1]), head + '    void check_bindings() const;\n};\n'))
+    name = plan['enc_fqn'][-1]
+    lines = [f'struct {name}', '{', '    dzn::meta dzn_meta;', '    const dzn::locator& dzn_locator;']
+    for p in plan['ports']:
+        lines.append(f'    {cpp_fqn(p["itf"]["fqn"])} {p["name"]};')
+    lines += [f'    {name}(const dzn::locator& locator);', '    void check_bindings() const;', '};']
+    out.append(wrap_ns(plan['enc_fqn'][:-1], '\n'.join(lines) + '\n'))
+    return '\n'.join(out)
+
+
 def model_header(plan):
     itfs = {}
     for p in plan['ports']:
